@@ -341,9 +341,12 @@ def run_sklearn_model(name, est, X, ctx_rows):
                     arr = np.array([[r[c] for c in cols] for r in rows])
                 try:
                     want_rows = f(arr)
+                    want_1 = [f(arr[i:i + 1]) for i in range(len(rows))]
+                except Exception:
+                    continue      # the estimator itself rejects this input (e.g. permuted columns): outside the domain
+                try:
                     got_b = w(rows)
                     got_1 = [w(r) for r in rows]
-                    want_1 = [f(arr[i:i + 1]) for i in range(len(rows))]
                 except Exception as e:
                     return f'C14:sklearn:model:exception:{type(e).__name__}', f'{name}.{meth} ({make}): {e!r}'
                 for i in range(len(rows)):
@@ -355,7 +358,9 @@ def run_sklearn_model(name, est, X, ctx_rows):
                         return (f"C14:sklearn:model:single-canonical-form:{'size-one' if size == 1 else 'vector'}",
                                 f'{name}.{meth} ({make}) single input {i}: got {got_1[i]!r}, canonical {canon(want_1[i])!r} for raw output '
                                 f'{want_1[i]!r} of shape {np.asarray(want_1[i]).shape}')
-                    if not same_canon(got_1[i], got_b[i], 1e-9):
+                    # single == batch row only "whenever the model itself computes rows independently"
+                    independent = same_canon(canon(want_1[i]), canon(want_rows[i]), 1e-12)
+                    if independent and not same_canon(got_1[i], got_b[i], 1e-9):
                         return 'C14:sklearn:model:single-vs-batch', f'{name}.{meth} row {i}: single {got_1[i]!r} vs batch {got_b[i]!r}'
     return None
 
